@@ -105,17 +105,48 @@ def _same(x, y, symbolic) -> bool:
     return lf._same_bits(float(x), float(y))
 
 
+def _staged(cfg, labels, cells, dtype):
+    """The container in the state under test.  cfg['stage']: None (constructed on the span, cells written into its
+    arrays) or a HISTORY of public calls -- 'grown': built one period shorter, read through every access path, then
+    reindexed to the span; 'copy': read, then copied; 'rebind': read, then every series replaced by whole-series assignment.
+    Lengths, positions or arrays remembered from before are stale afterwards."""
+    n, stage = cfg['n'], cfg.get('stage')
+    if stage == 'grown' and n >= 1:
+        c = VectorContainer(_span(dict(cfg, n=n - 1), labels[:n - 1]))
+    else:
+        c = VectorContainer(_span(cfg, labels))
+    c.add_variable('X', 0.0, dtype=dtype)
+    c.add_variable('W', 0.0, dtype=dtype)
+    if stage:
+        with warnings.catch_warnings():
+            warnings.simplefilter('ignore')
+            have = list(c.span)
+            for v in ('X', 'W'):
+                getattr(c, v), c[v], c[v, :], c[v, ::1], c.eval(v)
+                if have:
+                    c[v, have[0]:], c[v, :have[-1]], c[v, have[0]]
+                    c[v, have[0]:] = 1.0
+                    c[v, :] = 2.0
+            c.values, c.size
+        if stage == 'grown':
+            c = c.reindex(_span(cfg, labels))
+        elif stage == 'copy':
+            c = c.copy()
+        for v in cells:
+            setattr(c, v, list(cells[v]))
+    else:
+        for v in cells:
+            for j in range(n):
+                c.__dict__['_' + v][j] = cells[v][j]
+    return c
+
+
 def scenario(cfg, src, symbolic: bool) -> List[str]:
     n, op = cfg['n'], cfg['op']
     labels = _labels(cfg, src)
-    c = VectorContainer(_span(cfg, labels))
     dtype = object if symbolic else float
-    c.add_variable('X', 0.0, dtype=dtype)
-    c.add_variable('W', 0.0, dtype=dtype)
     cells = {v: [src.f(f'{v}_{j}') for j in range(n)] for v in ('X', 'W')}
-    for v in cells:
-        for j in range(n):
-            c.__dict__['_' + v][j] = cells[v][j]
+    c = _staged(cfg, labels, cells, dtype)
     a, b = _req(cfg, 'a', src), _req(cfg, 'b', src)
     step = src.i('step') if cfg['step'] == 'sym' else (None if cfg['step'] == 'none' else cfg['step'])
     val = src.f('val')
@@ -311,6 +342,24 @@ def configs(tier: str):
                 for b in labs[1::2] + ['none']:
                     out.append(cfg10(span=span, n=n, op='getslice', a=a, b=b, step='sym' if n > 1 else 'none'))
                     out.append(cfg10(span=span, n=n, op='setslice', a=a, b=b))
+    # HISTORIES: the container was shorter / was read / was copied before (nothing remembered from then may matter)
+    for stage in ('grown', 'copy', 'rebind'):
+        for span in ('list_sym', 'range', 'nd_int', 'range_step', 'list_str', 'nd_str'):
+            for n in (1, 2, 3) if tier == 'quick' else (1, 2, 3, 4, 5):
+                if span == 'list_sym' and n > 3:
+                    continue
+                sym = span == 'list_sym'
+                labs = _labels(cfg10(span=span, n=n), SymSrc())
+                ab = [('sym', 'sym'), ('none', 'sym'), ('sym', 'none'), ('none', 'none')] if sym else \
+                     [(labs[0], 'none'), ('none', labs[-1]), ('none', 'none'), (labs[-1], 'none'), (labs[0], labs[-1])]
+                for a, b in ab:
+                    for op in ('getslice', 'setslice'):
+                        out.append(cfg10(span=span, n=n, op=op, a=a, b=b, step='sym' if (sym and n > 1) else 'none', stage=stage))
+                for a in (['sym'] if sym else list(labs)):
+                    out.append(cfg10(span=span, n=n, op='get', a=a, stage=stage))
+                    out.append(cfg10(span=span, n=n, op='set', a=a, stage=stage))
+                for w in ('attr', 'label', 'slice', 'whole'):
+                    out.append(cfg10(span=span, n=n, op='roundtrip', wpath=w, pos=n - 1, stage=stage))
     # labels of ANOTHER TYPE that look like a present label: a non-integral float or a digit string on integer spans, a
     # present string with a suffix / a prefix of one on string spans (a locator that converts the label to the span's
     # element type would alias a present period)
@@ -354,7 +403,8 @@ def finding_key(cfg, cand) -> str:
     vals = [labs.get(f'lab_{j}') for j in range(cfg['n'])]
     if cfg['op'] in ('getslice', 'setslice') and (cfg['a'] == 'none' or cfg['b'] == 'none') and None not in vals and len(set(vals)) < len(vals):
         return 'open-ended-slice-follows-repeated-label'
-    return f"{cfg['span']},n={cfg['n']},{cfg['op']},a={cfg['a']},b={cfg['b']},step={cfg['step']}:{bad[0] if bad else '?'}"
+    hist = f",history={cfg['stage']}" if cfg.get('stage') else ''
+    return f"{cfg['span']},n={cfg['n']},{cfg['op']},a={cfg['a']},b={cfg['b']},step={cfg['step']}{hist}:{bad[0] if bad else '?'}"
 
 
 def main() -> int:
